@@ -283,7 +283,7 @@ func main() {
 	for _, R := range ev.Pick(r, []uint32{0, 1, 2}, []uint32{0, 1, 2, 4}) {
 		scs = append(scs, scenario(cfg{R: R, NStart: 1, Events: ev.Pick(r, 3, 4)}))
 	}
-	scs = append(scs, scenario(cfg{R: 4, NStart: 1, Events: 2}))
+	scs = append(scs, scenario(cfg{R: 4, NStart: 1, Events: ev.Pick(r, 2, 3)}))
 	scs = append(scs, scenario(cfg{R: 2, NStart: 1, Events: 1, WriteFail: true}))
 	for _, ns := range []uint32{1, 2} {
 		scs = append(scs, scenario(cfg{R: 1, NStart: ns, Two: true, Events: ev.Pick(r, 2, 3)}))
